@@ -383,7 +383,6 @@ PLANS["C16"] = dict(
     assumptions=ASSUME_COMMON + ["ThreadSanitizer's happens-before analysis flags a race on any schedule where the two accesses are unordered; schedules are sampled, not enumerated",
                                  "construction is sequential (the chunked OpenMP build is not part of this property)"],
     technique="runtime monitoring: ThreadSanitizer (happens-before race detector) + per-thread result digests vs sequential execution",
-    timeout=dict(quick=1800, thorough=7200),
 )
 
 
